@@ -3,7 +3,7 @@ package quic
 //vx:pkg github.com/refraction-networking/uquic
 //vx:entry Harness_C11_suppress
 //vx:param quick maxparams=2 maxsuppress=2
-//vx:param thorough maxparams=3 maxsuppress=2
+//vx:param thorough maxparams=2 maxsuppress=3
 //vx:reach Harness_C11_suppress C11.sup.removed C11.sup.kept C11.sup.grease-removed C11.sup.fake-grease-removed C11.sup.ids
 
 import (
